@@ -677,6 +677,28 @@ type mediaSection struct {
 	sctpInit        []byte
 	matchExtensions map[string]int
 	rids            []*simulcastRid
+	// unsupported is the remote m-section this section rejects because its media type is not supported.
+	unsupported *sdp.MediaDescription
+}
+
+// addUnsupportedMediaSection rejects a remote m-section of a media type we do not support:
+// same media line with port 0, and the mid that identifies it.
+func addUnsupportedMediaSection(descr *sdp.SessionDescription, midValue string, remote *sdp.MediaDescription) {
+	descr.WithMedia((&sdp.MediaDescription{
+		MediaName: sdp.MediaName{
+			Media:   remote.MediaName.Media,
+			Port:    sdp.RangedPort{Value: 0},
+			Protos:  remote.MediaName.Protos,
+			Formats: remote.MediaName.Formats,
+		},
+		ConnectionInformation: &sdp.ConnectionInformation{
+			NetworkType: "IN",
+			AddressType: "IP4",
+			Address: &sdp.Address{
+				Address: "0.0.0.0",
+			},
+		},
+	}).WithValueAttribute(sdp.AttrKeyMID, midValue))
 }
 
 // dataMediaSectionMid picks the mid of a newly added application media section: the number of
@@ -741,6 +763,12 @@ func populateSDP(
 	}
 
 	for i, section := range mediaSections {
+		if section.unsupported != nil {
+			addUnsupportedMediaSection(descr, section.id, section.unsupported)
+
+			continue
+		}
+
 		if section.data && len(section.transceivers) != 0 {
 			return nil, errSDPMediaSectionMediaDataChanInvalid
 		} else if !isPlanB && len(section.transceivers) > 1 {
